@@ -43,14 +43,15 @@ N, C = 12, 8
 
 
 def bounds(tier: str) -> dict:
-    return {"writers": WRITERS, "gulps": [1, 2, 3, N // 2, N, 10 * N], "depths": [8, 32, 4], "N": N, "C": C, "syscall_level": tier == "thorough"}
+    return {"writers": WRITERS, "gulps": [1, 2, 3, N // 2, N, 10 * N] if tier == "quick" else "1..N+1, 10N", "depths": [8, 32, 4], "N": N, "C": C, "syscall_level": tier == "thorough"}
 
 
 def shards(tier: str, seed: int) -> list:
     out = []
+    gulps = [1, 2, 3, N // 2, N, 10 * N] if tier == "quick" else [*range(1, N + 2), 10 * N]
     for nbits in (8, 32, 4):
         for w in WRITERS:
-            out.append({"kind": "calls", "writer": w, "nbits": nbits})
+            out.append({"kind": "calls", "writer": w, "nbits": nbits, "gulps": gulps})
     if tier == "thorough":
         for nbits in (8, 32):
             for w in WRITERS:
@@ -206,7 +207,7 @@ def run_shard(shard: dict, ctx, res, only=None) -> None:
     writer, nbits = shard["writer"], shard["nbits"]
     site = f"writer:{writer}"
     truncated_done = False
-    for g in (1, 2, 3, N // 2, N, 10 * N):
+    for g in shard.get("gulps", (1, 2, 3, N // 2, N, 10 * N)):
         if only is not None and only != g:
             continue
         case = {"shard": shard, "inner": g}
